@@ -221,14 +221,22 @@ func init() {
 			}
 			return SliceV{A: cells}
 		},
-		"fmt.Fprintf":                    inFprintf,
-		"(*strings.Builder).WriteString": inBuilderWriteString,
-		"(*strings.Builder).Write":       inBuilderWriteString,
-		"(*strings.Builder).WriteByte":   inBuilderWriteByte,
-		"(*strings.Builder).WriteRune":   inBuilderWriteRune,
-		"(*strings.Builder).String":      inBuilderString,
-		"(*strings.Builder).Len":         inBuilderLen,
-		"(*strings.Builder).Grow":        func(ex *Exec, fr *frame, args []Val) Val { return nil },
+		"fmt.Fprintf":                     inFprintf,
+		"unicode/utf8.DecodeRuneInString": inUTF8Decode,
+		"unicode/utf8.DecodeRune":         inUTF8Decode,
+		"unicode/utf8.ValidString":        inUTF8Valid,
+		"unicode/utf8.Valid":              inUTF8Valid,
+		"unicode/utf8.RuneCountInString":  inUTF8RuneCount,
+		"unicode/utf8.RuneCount":          inUTF8RuneCount,
+		"unicode/utf8.AppendRune":         inUTF8AppendRune,
+		"unicode/utf8.RuneLen":            inUTF8RuneLen,
+		"(*strings.Builder).WriteString":  inBuilderWriteString,
+		"(*strings.Builder).Write":        inBuilderWriteString,
+		"(*strings.Builder).WriteByte":    inBuilderWriteByte,
+		"(*strings.Builder).WriteRune":    inBuilderWriteRune,
+		"(*strings.Builder).String":       inBuilderString,
+		"(*strings.Builder).Len":          inBuilderLen,
+		"(*strings.Builder).Grow":         func(ex *Exec, fr *frame, args []Val) Val { return nil },
 		"(*strings.Builder).Reset": func(ex *Exec, fr *frame, args []Val) Val {
 			b := (*args[0].(*Val)).(StructV)
 			b[1] = SliceV{Nil: true}
